@@ -1208,8 +1208,26 @@ def v_conditional(m: Mod) -> None:
               "else:", f"    class {n}:", "        old: int = 0")
         m.classes.append(Cls(n, "class", None, subclassable=False))
         m.define(n, "conditional-class")
-    else:
+    elif c < 0.97:
         m.add("if __name__ == '__main__':", "    print('running')")
+    if c >= 0.9 or r.random() < 0.35:
+        # a DECORATED function defined in both branches (the second definition is a redefinition stubgen skips),
+        # followed by an ordinary function
+        n = m.fresh("locked")
+        n2 = m.fresh("after_locked")
+        if r.random() < 0.5:
+            cm = m.imp_from("contextlib", "contextmanager")
+            it = m.abc("Iterator")
+            osm = m.imp("os")
+            m.add(f"if {osm}.name == 'nt':", f"    @{cm}", f"    def {n}(path: str) -> {it}[None]:", "        yield None",
+                  "else:", f"    @{cm}", f"    def {n}(path: str) -> {it}[None]:", "        yield None")
+        else:
+            ft = m.imp("functools")
+            m.add("try:", f"    @{ft}.cache", f"    def {n}(x: int) -> int:", "        return x",
+                  "except ImportError:", f"    @{ft}.cache", f"    def {n}(x: int) -> int:", "        return -x")
+        m.define(n, "conditional-function")
+        m.add(f"def {n2}(path: str) -> None:", "    return None")
+        m.define(n2, "function")
 
 
 def v_private_in_public(m: Mod) -> None:
